@@ -59,3 +59,13 @@ reg('C18', engine='llsym',
          'PyList_New, PyBytes_FromStringAndSize). Length bounded (2 quick / 4 thorough); wide-char, long double '
          'and complex item types not covered.',
     technique='differential symbolic execution of LLVM IR, SMT (z3 bit-vectors + FP)')
+
+reg('C09', engine='pysym + crosshair',
+    text='The real Parser._parse_constant/_c_div are executed symbolically (proxy ints over z3 Int / 160-bit '
+         'vectors, path forking through the solver) on every operator and on depth-2 shapes with arbitrary leaves, '
+         'against a relational statement of C semantics wherever C defines the value; literal text is covered by '
+         'CrossHair on symbolic strings constrained to the C constant grammar.',
+    note='Trusted: pysym proxy semantics of Python int operators, the C-semantics oracle in harness/C09.py, '
+         'CrossHair/z3. Operands typed as long long (unsigned-suffix modular arithmetic outside); literal length '
+         'bounded (4 quick / 6 thorough).',
+    technique='symbolic execution of the real Python function via proxy values + CrossHair, SMT (z3 Int/BV/strings)')
